@@ -124,7 +124,7 @@ T("C08", "try-finally-style", F_GENERATOR, "    except Exception:\n        # The
 B("C09", "names-verbatim-strings", F_PARAMS, "    if isinstance(val, str):\n        return repr(val)\n    return str(val)", "    return str(val)", "C09.2")
 B("C09", "rename-foreign", F_GENERATOR, "        if not handed_on:\n", "        if True:\n", "C09.4")
 B("C09", "hash-builtin", F_PARAMS, "    return h.hexdigest()", "    return str(hash(jsonstr))", "C09.3")
-B("C09", "store-before-body", F_GENERATOR, "    # The main event: Run the generator-function\n", "    the_cache.done[call] = None\n    # The main event: Run the generator-function\n", "C09.1", accept_error=True)
+B("C09", "store-before-body", F_GENERATOR, "    # The main event: Run the generator-function\n", "    the_cache.done[call] = None\n    # The main event: Run the generator-function\n", "C09.8", accept_error=True)
 B("C09", "eq-ignores-generator", F_GENERATOR, "return self.gen is other.gen and self.params == other.params", "return self.params == other.params", "C09.1")
 
 # ------------------------------------------------------------------ C10
@@ -230,11 +230,19 @@ B("C09", "definition-site-in-pydantic", "hdl21/source_info.py", "        if fram
 
 B("C04", "follow-stale-instances", F_PORTREFS, "                if connected_port.inst._parent_module is module:\n                    follow(connected_port, group)", "                follow(connected_port, group)", "C04.6")
 
+B("C10", "anon-member-reference-looked-up-once", F_FLATB, "            while isinstance(attr, (BundleRef, PortRef)):", "            if isinstance(attr, (BundleRef, PortRef)):", "C10.5")
+B("C09", "prefixed-left-to-default-encoder", "hdl21/params.py", "    if isinstance(obj, Prefixed):\n", "    if False and isinstance(obj, Prefixed):\n", "C09.7")
+B("C09", "decimal-through-float", "hdl21/params.py", "        return \"Decimal:\" + str(obj.normalize())", "        return \"Decimal:\" + str(float(obj))", "C09.7")
+B("C15", "literal-size-last-term-scaled", "pdks/Sky130/sky130_hdl21/pdk_logic.py", "return h.Literal(f\"(({orig.text}) * 1e6)\")", "return h.Literal(f\"({orig.text} * 1e6)\")", "C15.3")
+B("C01", "handed-on-slice-not-entered", F_RRT, "            if hasattr(resolved, \"_slices\"):\n                resolved._slices.add(slice_)\n", "", "C01.14")
+
 # ------------------------------------------------------------------ C19
 B("C19", "series-net-too-wide", F_GENERATORS, "i = m.add(h.Signal(name=\"i\", width=params.nser - 1))", "i = m.add(h.Signal(name=\"i\", width=params.nser))", "C19.1")
 B("C19", "series-both-first", F_GENERATORS, "unit_conns[series_conns[1].name] = h.Concat(i, series_conns[1])", "unit_conns[series_conns[1].name] = h.Concat(series_conns[1], i)", "C19.1")
 B("C19", "mosstack-gate", F_GENERATORS, "conns=(\"d\", \"s\"))", "conns=(\"d\", \"g\"))", "C19.3")
-B("C19", "wrapper-ports-only", F_GENERATORS, "for p in io(m).values()}", "for p in m.ports.values()}", "C19.4")
+B("C19", "wrapper-ports-only", F_GENERATORS, "for p in bundled_io(m).values()}", "for p in m.ports.values()}", "C19.4")
+B("C19", "wrapper-clones-live-ports", F_GENERATORS, "    from .instantiable import bundled_io\n\n    # Initialize our wrapper-module", "    from .instantiable import io as bundled_io\n\n    # Initialize our wrapper-module", "C19.4")
+B("C07", "series-clones-live-ports", F_GENERATORS, "    for p in bundled_io(params.unit).values():", "    for p in io(params.unit).values():", "C07.9")
 B("C19", "nser-one-builds-array", F_GENERATORS, "    if params.nser == 1:\n        return Wrapper(params.unit)  # Easy mode\n", "", "C19.2")
 
 # ------------------------------------------------------------------ pure renames of locals (alpha-normalised away)
